@@ -163,7 +163,7 @@ func streamCore(mem, got []byte) (string, string) {
 	case len(got) > len(mem):
 		how = "longer"
 	}
-	return "stream-differs:" + how + "|at=" + byteClass(mem, n), fmt.Sprintf("first difference at byte %d: streamed %q", n, got)
+	return "stream-differs:" + how, fmt.Sprintf("first difference at byte %d: streamed %q", n, got)
 }
 
 // sameBytesAnyOrder: equal length and equal byte multiset (used when member
